@@ -152,6 +152,88 @@ PROPS.update({
     },
 })
 
+PROPS.update({
+    "C08": {
+        "engine": "c08",
+        "level": "exploration",
+        "profiles": ["release", "checked"],
+        "budget": {"quick": 12, "thorough": 150},
+        "claim": "The finished file is compared byte-for-byte with a one-call reference encode while the same PCM is fed (a) through EVERY two-call split point (and all three-call splits for inputs <= 40 units) of small inputs - in samples for the sample writer incl. mid-PCM-frame, in bytes for both byte-order writers incl. mid-sample, in PCM frames for the channel writer - (b) through random chunkings with empty calls for inputs spanning several blocks, (c) repeatedly. A trailing partial PCM frame (incl. less than one whole frame in total and exact block multiples) must give the file of the truncated input, or the same refusal when nothing whole was written, never a panic.",
+        "note": "exhaustive only in the split sub-space of each small input; options/PCM are sampled",
+        "technique": "runtime monitoring: differential determinism oracle over call histories (exhaustive split enumeration for small inputs)",
+        "design_ref": "DESIGN.md section 4 C08",
+        "rule": "a case = (options, PCM, front-end, split plan); NON-TRIVIAL when the input was split over >= 2 calls (or carried a partial frame) and the output was compared with the reference; DISTINCT by hash(reference bytes, front-end, split plan)",
+        "quotas": {
+            "all four front-ends": lambda m: keys(m, "front") == 4,
+            ">= 20000 split encodes compared": lambda m: m["evaluations"] >= 20000,
+            "partial-frame cases on 3 front-ends": lambda m: keys(m, "partial_frame_front") == 3,
+        },
+    },
+    "C09": {
+        "engine": "c09",
+        "level": "exploration",
+        "profiles": ["release", "checked"],
+        "budget": {"quick": 12, "thorough": 150},
+        "claim": "Each finished file is parsed by the independent validator to obtain the truth (sample count, frame table with byte offsets/lengths, PCM, own MD5) and every STREAMINFO field and every defined seek point is compared with it (points name first sample / offset from first frame / length of an actual frame, strictly ascending, placeholders trailing; regenerating the table from the file with the same interval gives the same points). An offline checker over the recorded write/seek event log of the sink verifies that before finalize every write is a sequential append, that finalize's rewrite starts at the remembered stream start and ends exactly at the first frame, that the stream length does not change and that bytes preceding the stream start (writer handed in at offset 0/1/1000) are untouched. Configurations cross seek-table policy x declared/undeclared x padding absent/too small/exact/ample x start offset; one case writes more frames than a seek table can hold (932100).",
+        "note": "truth comes from flacref::dec; the event log is recorded at the Write+Seek object handed to the crate",
+        "technique": "runtime monitoring: independent re-measurement of the finished file + offline checker over the recorded I/O event log",
+        "design_ref": "DESIGN.md section 4 C09",
+        "rule": "a case = (options, front-end, PCM recipe, start offset); NON-TRIVIAL when the file was produced and all comparisons ran; DISTINCT by hash(file bytes, start offset)",
+        "quotas": {
+            "seek points checked": lambda m: h(m, "seekpoints_checked") >= 1000,
+            "regenerated tables compared": lambda m: h(m, "regenerated_table", "identical") >= 200,
+            "all seek policies": lambda m: keys(m, "seek_policy") == 4,
+            "the > 932067-frame case ran": lambda m: h(m, "huge_frame_count_case", "run") >= 1,
+        },
+    },
+    "C13": {
+        "engine": "c13",
+        "level": "fault_enumeration",
+        "profiles": ["release"],
+        "budget": {"quick": 10, "thorough": 120},
+        "claim": "For each scenario instance (encode+finalize through every writer front-end; write_blocks; update_file in place growing/shrinking/equal and rebuilding, with faults on the original file object and on the rebuilt sink; decoding and verify_reader through a faulty source) a fault-free run counts the underlying write/flush/seek/read calls and then EVERY call index of every kind is failed once per mode: permanent, transient, legal short transfer, and ErrorKind::Interrupted. Oracle: result Ok => the sink holds exactly the fault-free bytes (a dropped unflushed buffer shows as Ok with stale bytes); a failing read => Err or complete correct data, never truncated-but-Ok; no panic.",
+        "note": "exhaustive over call indices per scenario instance; the instances (inputs/options) are sampled",
+        "technique": "fault injection with exhaustive enumeration of failing call indices at the I/O boundary",
+        "design_ref": "DESIGN.md section 4 C13",
+        "rule": "evaluations = faulted runs; DISTINCT NON-TRIVIAL = scenario instances (by hash of their fault-free output) for which the whole fault space was enumerated",
+        "quotas": {
+            "all four scenarios": lambda m: all(any(k.startswith(p) for k in m["hist"].get("fault_points", {})) for p in ("encode:", "write_blocks:", "update:", "decode:")),
+            "in-place and rebuild update paths": lambda m: keys(m, "update_path") == 2,
+            ">= 50000 faulted runs": lambda m: m["evaluations"] >= 50000,
+        },
+    },
+    "C14": {
+        "engine": "c14",
+        "level": "fault_enumeration",
+        "profiles": ["release", "checked"],
+        "budget": {"quick": 8, "thorough": 100},
+        "claim": "Encodes are abandoned before finalize (the writer is leaked, so neither finalize nor Drop runs) into a recording sink; EVERY write-call boundary and, for pre-finalize streams <= 4 KiB, EVERY byte length is used as crash point. Each prefix is decoded with three reader front-ends; oracle: the delivered PCM equals exactly the samples of all frames that lie completely inside the prefix (frame boundaries from the independent decoder run on the full pre-finalize stream with its provisional header) - nothing missing, nothing extra - before end of data or an error. Declared/undeclared totals, all seek-table policies, padding variants, all front-ends.",
+        "note": "crash model = prefix of the byte stream at the sink; reordering of writes by an OS cache is outside the model",
+        "technique": "crash-point enumeration over the recorded pre-finalize byte stream with an independent frame table as oracle",
+        "design_ref": "DESIGN.md section 4 C14",
+        "rule": "evaluations = (prefix, reader) decodes; DISTINCT NON-TRIVIAL = abandoned encodes (hash of the pre-finalize stream) whose complete crash-point set was enumerated",
+        "quotas": {
+            "byte-granular and call-granular crash points": lambda m: keys(m, "crash_points") == 2,
+            "frames recovered before an error and before clean EOS": lambda m: h(m, "outcome", "frames-recovered-then-error") > 0 and h(m, "outcome", "frames-recovered-then-eos") > 0,
+        },
+    },
+    "C15": {
+        "engine": "c15",
+        "level": "exploration",
+        "profiles": ["release", "checked"],
+        "budget": {"quick": 12, "thorough": 120},
+        "claim": "Full cross product of boundary/interior values: 17 bit depths x 12 channel counts x 9 sample rates x 114 option sets (block size, max LPC order, max partition order, padding incl. 0/max/max+1) over the three file writers with and without a declared total, plus declared-total boundary values and a FlacStreamWriter::write parameter grid. Oracle: never a panic (both profiles); every documented-legal combination constructs AND works (a short signal is written, finalized and round-trips). Declared-length automaton: random (declared N, written M, block size, 1-5 write calls, front-end) histories: M>N => some call fails and the overall result is never Ok; M<N => finalize fails; M==N => Ok and the file carries N; undeclared => STREAMINFO total == written.",
+        "note": "the grid is enumerated completely in the thorough tier; the quick tier thins the option sets for out-of-range stream parameters",
+        "technique": "runtime monitoring over an enumerated configuration grid + contract automaton over write histories",
+        "design_ref": "DESIGN.md section 4 C15",
+        "rule": "a case = one grid point or one declared-length history; NON-TRIVIAL = legal grid points whose writer worked end-to-end and histories whose outcome was judged; DISTINCT by hash of the parameters",
+        "quotas": {
+            "legal and illegal grid points": lambda m: h(m, "grid_point", "documented-legal") >= 1000 and h(m, "grid_point", "out-of-range") >= 1000,
+            "under, exact and over filling histories": lambda m: all(h(m, "declared_length_history", k) > 50 for k in ("under", "exact", "over")),
+        },
+    },
+})
+
 
 # properties not (yet) claimed: id -> reason
 NOT_APPLICABLE = {f"C{n:02d}": "check not built yet (framework under construction; see DESIGN.md section 4 for the planned monitor)" for n in range(1, 21)}
